@@ -649,6 +649,33 @@ func c09Main(args []string) error {
 			c09Program(res, t, nil, 0)
 			out.put(res)
 		}
+		// every binary operator on two run-time operands, all inputs (division and modulo guarded against a zero
+		// divisor, where the targets' dividers are allowed to differ)
+		n := idx + len(pgTemplates)
+		widths := []int{4, 6}
+		if thorough() {
+			widths = []int{3, 5, 6, 7, 8}
+		}
+		for _, w := range widths {
+			for _, signed := range []bool{false, true} {
+				T := typeName(signed, w)
+				for _, op := range []string{"+", "-", "*", "/", "%", "&", "|", "^", "&^", "<", "<=", ">", ">=", "==", "!=", "<<", ">>"} {
+					rt, body := T, "return a "+op+" b"
+					switch op {
+					case "/", "%":
+						body = "if b == 0 {\n\t\treturn 0\n\t}\n\treturn a " + op + " b"
+					case "<", "<=", ">", ">=", "==", "!=":
+						rt = "bool"
+					case "<<", ">>":
+						body = fmt.Sprintf("return (a %s 1) ^ (b %s %d)", op, op, w/2)
+					}
+					res := &Result{Case: n, Nontrivial: true}
+					n++
+					c09Program(res, fmt.Sprintf("package main\n\nfunc main(a, b %s) %s {\n\t%s\n}\n", T, rt, body), nil, 0)
+					out.put(res)
+				}
+			}
+		}
 		return nil
 	case "graphs":
 		return c09Graphs(args[1:])
